@@ -29,6 +29,7 @@ def g_ctor(draw, tier):
     c["layout"] = draw(st.sampled_from(["F", "C", "flat", "fview"]))
     c["shape_arg"] = draw(st.sampled_from(["none", "tuple", "array"]))
     c["copy_kw"] = draw(st.booleans())
+    c["_present"] = R.d_present(draw, values=["data"], indices=["shape"])
     return c
 
 
@@ -47,12 +48,13 @@ def _(ctx, c):
         arr = big[tuple(slice(0, s) for s in c["shape"])]
         arr[...] = A
     ctx.label("layout-" + lay)
+    arr = R.presented(ctx, c, "data", arr)
     ops = {"data": arr}
     shape = None
     if c["shape_arg"] == "tuple" or lay == "flat":
         shape = tuple(c["shape"])
     elif c["shape_arg"] == "array":
-        shape = np.array(c["shape"])
+        shape = R.presented(ctx, c, "shape", np.array(c["shape"]))
         ops["shape"] = shape
     kw = {"copy": True} if c["copy_kw"] else {}
     return ops, lambda: ttb.tensor(arr, shape, **kw)
@@ -252,7 +254,7 @@ def g_mttkrp(draw, tier):
 def build_U(c):
     mats = [R.mat(m, s, c["r"]) for m, s in zip(c["U"], c["shape"])]
     if c["ukind"] == "list":
-        return [R.CS.aux(c, m) for m in mats]
+        return R.CS.seq(c, [R.CS.aux(c, m) for m in mats])
     w = np.array(c["w"], dtype=float) if c["ukind"] == "ktensor-weights" else np.ones(c["r"])
     return ttb.ktensor(mats, w)
 
@@ -329,8 +331,8 @@ def ttm_args(ctx, c, shape):
         M = per_mode[c["d"]["dims"][0]]
         ctx.label("single-matrix")
     else:
-        M = R.multiplicands(c["d"], n, per_mode, c["full"])
-        ctx.label("matrix-list-" + c["d"]["how"])
+        M = R.CS.seq(c, R.multiplicands(c["d"], n, per_mode, c["full"]))
+        ctx.label("matrix-list-" + c["d"]["how"], "multiplicands-in-" + type(M).__name__)
     ctx.label("identity-matrices" if c["identity"] else "generic-matrices", "transpose" if c["transpose"] else "plain")
     ops["matrix"] = M
     if c["transpose"]:
@@ -416,8 +418,8 @@ def ttv_args(ctx, c, shape):
         V = per_mode[c["d"]["dims"][0]]
         ctx.label("single-vector")
     else:
-        V = R.multiplicands(c["d"], n, per_mode, c["full"])
-        ctx.label("vector-list-" + c["d"]["how"])
+        V = R.CS.seq(c, R.multiplicands(c["d"], n, per_mode, c["full"]))
+        ctx.label("vector-list-" + c["d"]["how"], "multiplicands-in-" + type(V).__name__)
     used = R.dims_used(c["d"], n)
     if all(sorted(v) == [0.0] * (len(v) - 1) + [1.0] for v in c["vecs"]):
         ctx.label("unit-vectors")
@@ -884,7 +886,7 @@ def _(ctx, c):
         v = c["value"]
     else:
         A = gen.arr_F(c["vshape"], c["value"]).copy(order="F") if len(c["vshape"]) else np.array(c["value"], dtype=float)
-        v = ttb.tensor(A, tuple(c["vshape"])) if c["vkind_"] == "tensor" else A
+        v = ttb.tensor(A, tuple(c["vshape"])) if c["vkind_"] == "tensor" else R.CS.aux_present(c, A)
     return {"self": X, "key": key, "value": v}, lambda: X.__setitem__(key, v)
 
 
